@@ -3,7 +3,7 @@
 
     The interface is a record of functions [TreeI node label]; Go's [interface{}] arguments that may be nil are
     [option]s ([None] = nil; "a nil indicates root node").  A leaf value is printed with fmt's "%v": the values
-    the harness uses are nil, ints, strings and bools ([lval], [fmt_v] is the definitional model of "%v" on them).
+    the harness uses are nil, ints, strings, bools and []int slices ([lval], [fmt_v] is the definitional model of "%v" on them).
     Strings are byte lists.  Recursion over an abstract interface need not terminate (an implementation may
     describe a cyclic graph): both walks take fuel, fuel exhaustion is [None] and is excluded by the theorems
     (any fuel above the height of the tree suffices).  The callback of DepthFirst is abstract: the model returns
@@ -14,7 +14,15 @@ From Low Require Import Lib.Decimal_xpk.
 Import ListNotations.
 Open Scope Z_scope.
 
-Inductive lval := LNil | LInt (z : Z) | LStr (s : list Z) | LBool (b : bool).
+Inductive lval := LNil | LInt (z : Z) | LStr (s : list Z) | LBool (b : bool) | LInts (l : list Z).
+
+(** elements of a slice under "%v": separated by one space *)
+Fixpoint fmt_ints (l : list Z) : list Z :=
+  match l with
+  | [] => []
+  | [x] => dec_of_Z x
+  | x :: t => dec_of_Z x ++ [32] ++ fmt_ints t
+  end.
 
 (** fmt.Sprintf("%v", v) *)
 Definition fmt_v (v : lval) : list Z :=
@@ -24,6 +32,7 @@ Definition fmt_v (v : lval) : list Z :=
   | LStr s => s
   | LBool true => [116; 114; 117; 101]                    (* "true" *)
   | LBool false => [102; 97; 108; 115; 101]               (* "false" *)
+  | LInts l => [91] ++ fmt_ints l ++ [93]                 (* "[1 2 3]", "[]" for an empty or nil slice *)
   end.
 
 Record TreeI (node label : Type) := {
